@@ -224,5 +224,5 @@ META = {
             "messages on a communicator and its duplicate received in the opposite order). Not modelled: erroneous arguments, the parent-pid "
             "fallback of Group::rank, inter-communicators.",
     "technique": "Coq proof (list induction, Permutation/StronglySorted, nia for the range loops) + extracted-model correspondence under smpirun",
-    "claimed": False,
+    "claimed": True,
 }
